@@ -20,4 +20,5 @@ let lookup (p : string) : Model.val0 -> Model.val0 =
   | "C09" -> Model.run_C09
   | "C03" -> Model.run_C03
   | "C01" -> Model.run_C01
+  | "C02" -> Model.run_C02
   | _ -> failwith ("unknown property " ^ p)
